@@ -39,7 +39,7 @@ def gen_cases(tier, seed):
         for i in range(n):
             jobs = []
             for j in range(rnd.randint(3, 6)):
-                jobs.append({"kind": rnd.choice(["ok", "ok", "fail_retry", "result", "fail_nack"]), "d": rnd.choice([0.0, 0.3, 0.3, 2.0, 10.0])})
+                jobs.append({"kind": rnd.choice(["ok", "ok", "fail_retry", "result", "fail_nack", "slow_unwind"]), "d": rnd.choice([0.0, 0.3, 0.3, 2.0, 10.0])})
             base = {"kind": kind, "jobs": jobs, "tl": rnd.choice([1, 2, 1000]), "seed": rnd.randrange(10**6), "latency": None if kind == "mem" else rnd.choice([None, 0.002])}
             G = rnd.choice([0.0, 0.0, 0.5, 3.0]) if tier == "quick" else None
             parts = 6 if tier == "quick" else 8
@@ -57,7 +57,8 @@ def gen_cases(tier, seed):
     # directed: many executions in flight when the graceful period runs out (forced cancellation of all of them while the
     # consumers are being finished), on every broker
     for kind in ("mem", "redis", "rabbit"):
-        jobs = [{"kind": k, "d": 10.0} for k in ("ok", "fail_retry", "result", "ok", "ok")]
+        # (one of them takes 2 s to unwind once it is cancelled: the worker does not wait for that, nor does the message)
+        jobs = [{"kind": k, "d": 10.0} for k in ("ok", "fail_retry", "result", "slow_unwind", "ok")]
         base = {"kind": kind, "jobs": jobs, "tl": 1000, "seed": rnd.randrange(10**6), "latency": None if kind == "mem" else 0.002}
         parts = 3 if tier == "quick" else 6
         for g in ((0.5,) if tier == "quick" else (0.0, 0.5, 3.0)):
@@ -128,6 +129,8 @@ async def scenario(loop, case, inject_step, info):
             ids.append(id_)
             if j["kind"] == "fail_retry":
                 script = {"by_attempt": [{"do": "raise", "d": j["d"]}, {"do": "ok", "d": 0.1}]}
+            elif j["kind"] == "slow_unwind":
+                script = {"do": "hang_cleanup", "hang": j["d"], "cleanup": 2.0}
             elif j["kind"] == "fail_nack":
                 script = {"do": "raise", "d": j["d"]}  # no retries left: the disposition is nack
             else:
